@@ -29,7 +29,7 @@ TREE = [
     {"p": "r/m/caf\udce9", "k": "file", "c": ["base", 300, 3]},
 ]
 PLACEMENTS = ["outside", "inside", "other_device", "relative", "relative_other_cwd", "dotdot_through_symlink", "trailing_slash", "other_mount"]
-PREPOP = ["empty", "file", "dir", "dangling_symlink", "symlink_to_file", "fifo", "empty_dirs", "hardlink_of_source", "symlinked_parent"]
+PREPOP = ["empty", "file", "dir", "dangling_symlink", "symlink_to_file", "fifo", "empty_dirs", "hardlink_of_source", "symlinked_parent", "partial_dirs"]
 
 
 def prepare(tier):
@@ -42,7 +42,7 @@ def cases(tier, seed):
         for pp in PREPOP:
             out.append({"placement": pl, "prepop": pp, "sweep": False, "tier": tier})
     for pl in ("outside", "other_device", "other_mount"):
-        for pp in ("empty", "file", "dangling_symlink", "empty_dirs"):
+        for pp in ("empty", "file", "dangling_symlink", "empty_dirs", "partial_dirs"):
             out.append({"placement": pl, "prepop": pp, "sweep": True, "tier": tier})
     return out
 
@@ -132,6 +132,17 @@ def _evaluate(case):
                 os.makedirs(os.path.join(tdir, "unrelated", "empty"), exist_ok=True)
                 with open(os.path.join(tdir, "keep.txt"), "wb") as f:
                     f.write(b"unrelated file under DIR")
+            elif pp == "partial_dirs":
+                # DIR holds only the upper part of the mirrored hierarchy (private directories, modes unlike those of
+                # the source directories), the deeper parents are still to be created
+                upper = os.path.dirname(os.path.dirname(tdir + droppable[0]))
+                os.makedirs(upper, exist_ok=True)
+                q = upper
+                while q != tdir and q.startswith(tdir):
+                    os.chmod(q, 0o700)
+                    q = os.path.dirname(q)
+                os.makedirs(os.path.join(tdir, "unrelated"), exist_ok=True)
+                os.chmod(os.path.join(tdir, "unrelated"), 0o711)
             elif pp != "empty":
                 tp = tdir + collide
                 os.makedirs(os.path.dirname(tp), exist_ok=True)
@@ -176,6 +187,9 @@ def _evaluate(case):
                 if b["type"] == "dir":
                     if a is None or a["type"] != "dir":
                         viol.append(dict(feat, kind="preexisting_changed", detail="%s: directory %s -> %s" % (ctx, p, a)))
+                    elif p != tdir and pre_modes.get(p) is not None and os.lstat(p).st_mode != pre_modes[p]:
+                        viol.append(dict(feat, kind="preexisting_changed", detail="%s: mode of directory %s was %o, now %o" % (
+                            ctx, p, pre_modes[p], os.lstat(p).st_mode)))
                     continue
                 if a is None or {x: a.get(x) for x in ("type", "ino", "sha", "target")} != {x: b.get(x) for x in ("type", "ino", "sha", "target")}:
                     viol.append(dict(feat, kind="preexisting_changed", detail="%s: %s was %s, now %s" % (ctx, p, b, a)))
@@ -198,7 +212,7 @@ def _evaluate(case):
                     if case["prepop"] == "symlinked_parent":
                         # every source below the directory the symlink points to finds itself at its destination
                         in_the_way = tp.startswith(os.path.dirname(tdir + collide) + "/")
-                    if in_the_way and case["prepop"] not in ("empty", "empty_dirs"):
+                    if in_the_way and case["prepop"] not in ("empty", "empty_dirs", "partial_dirs"):
                         if not src_ok:
                             viol.append(dict(feat, kind="collision_source_removed", detail="%s: %s collided with an existing entry but is gone" % (ctx, p)))
                         elif not any("already exists" in w or os.path.basename(p) in w for w in D.warnings(res["err"])):
@@ -218,6 +232,7 @@ def _evaluate(case):
         try:
             rebuild()
             pre_t = C.inventory(tdir) if os.path.lexists(tdir) else {}
+            pre_modes = {q: os.lstat(q).st_mode for q in pre_t}
             pre_lex = set(pre_t)
             pre_s = C.inventory(sc.tree)
             victim_existed = os.path.lexists(outside_victim)
@@ -245,6 +260,7 @@ def _evaluate(case):
                 for k, f in plan:
                     rebuild()
                     pre_t = C.inventory(tdir) if os.path.lexists(tdir) else {}
+                    pre_modes = {q: os.lstat(q).st_mode for q in pre_t}
                     pre_s = C.inventory(sc.tree)
                     evals += 1
                     if f == "kill":
